@@ -75,7 +75,7 @@ outer:
 
 func wordLike(k string) bool {
 	switch k {
-	case hxgram.KWord, hxgram.KName, hxgram.KLit, hxgram.KAssign:
+	case hxgram.KWord, hxgram.KName, hxgram.KLit, hxgram.KAssign, hxgram.KAssignW:
 		return true
 	}
 	return false
